@@ -1,11 +1,12 @@
 """C16 (clause: the caller's context reaches every comparison) -- every call through the comparator in qsort_s.c / bsearch_s.c
 passes, as third argument, the value forwarded unchanged from the exported function's `context` parameter, through the comparator
 forwarded unchanged from `compar`; bsearch_s passes `key` first and an element derived from `base` second.
-Sortedness, permutation, search completeness and the array bounds (Leonardo-heap arithmetic) are NOT decided here."""
+For bsearch_s the array bounds are decided in the element-index domain (bsearch_bounds / sa/idxloop.py).
+Sortedness, permutation, search completeness and qsort_s's array bounds (Leonardo-heap arithmetic) are NOT decided here."""
 import os
 from ..ir import Program
 from ..derive import derive, labels_of
-from .. import frontend
+from .. import frontend, idxloop
 
 TUS = {"src/misc/qsort_s.c": "_qsort_s_chk", "src/misc/bsearch_s.c": "_bsearch_s_chk"}
 
@@ -114,6 +115,27 @@ def bsearch_args(mod, report):
     return n
 
 
+def bsearch_bounds(ck, fn, report):
+    """clause 'comparing only elements of the array / no access outside nmemb*size' for bsearch_s: in the element-index domain (sa/idxloop.py) the
+    invariant 0 <= B, B + n <= nmemb is inductive over every path of the search loop, and the pointer handed to the comparator has an index in [0, nmemb)."""
+    if fn is None:
+        ck.fail_broken("bsearch entry not found"); return {}
+    try:
+        r = idxloop.verify(fn, "base", "nmemb", "size")
+    except idxloop.Undecidable as e:
+        ck.fail_broken("%s: element-index clause not decidable on this shape: %s" % (fn.name, e)); return {}
+    if r["paths"] < 2 or not r["calls"]:
+        ck.fail_broken("%s: search loop with %d back-edge paths and %d array-pointer call arguments (expected >= 2 / >= 1)" % (fn.name, r["paths"], len(r["calls"])))
+    if not r["inductive"]:
+        report("C16:bsearch-range-not-inductive:%s" % fn.name, "R-search-stays-inside-the-array", "%s:%s" % (fn.file, fn.line),
+               "%s: the remaining search range does not stay inside the array: %s" % (fn.name, "; ".join(r["reasons"])))
+    for (line, ok) in r["calls"]:
+        if not ok:
+            report("C16:bsearch-element-out-of-range:%s" % fn.name, "R-search-stays-inside-the-array", "%s:%s" % (fn.file, line),
+                   "%s: the pointer handed to the comparator is not known to be an element of the array (index in [0, nmemb)) on some path" % fn.name)
+    return dict(back_edge_paths=r["paths"], comparator_element_arguments=len(r["calls"]), invariant="0 <= B, B + n <= nmemb", inductive=r["inductive"])
+
+
 def run(ck):
     mods, info = frontend.load_modules()
     prog = Program(mods)
@@ -132,16 +154,18 @@ def run(ck):
             ck.sample(dict(function=s[0], site=s[1], verdict="context = own parameter, forwarded from the exported entry"))
         if tu.endswith("bsearch_s.c"):
             res[tu]["bsearch_sites"] = bsearch_args(mod, ck.report)
+            res[tu]["element_index"] = bsearch_bounds(ck, prog.funcs.get(entry), ck.report)
     fx = selftest(ck)
     if nsites < 5:
         ck.fail_broken("fewer comparator call sites than confirmed by hand (%d < 5)" % nsites)
     cov = dict(explanation="All %d indirect calls of comparator type in qsort_s.c and bsearch_s.c were found; at each the callee must be the function's own comparator parameter and the "
                "third argument its own context parameter (SSA identity through bitcasts), and every internal call that reaches such a function must forward the caller's own pair, "
-               "up to the exported entry's (compar, context). bsearch_s additionally passes key first and a base-derived element second. No claim about sortedness, permutation, "
-               "completeness of the search or array bounds." % nsites,
+               "up to the exported entry's (compar, context). bsearch_s additionally passes key first and a base-derived element second. bsearch_s: in the element-index domain the invariant 0 <= B, B + n <= nmemb "
+               "is inductive over both paths of the search loop and the element handed to the comparator has an index in [0, nmemb). No claim about sortedness, permutation, "
+               "completeness of the search or qsort_s's array bounds." % nsites,
                obligations=nsites + len(res), discharged=nsites + len(res) - len({r["key"] for r in ck.reports}), details=res, fixtures=fx, frontend=info, exhaustive=True,
                summary="%d comparator call sites, context forwarded unchanged at all of them" % nsites)
-    return ck.finish(cov, ["only the context/key forwarding clause is decided"])
+    return ck.finish(cov, ["decided: context/key forwarding at every comparison; bsearch_s stays inside the array. Not decided: sortedness, permutation, search completeness, qsort_s bounds", "size * nmemb does not wrap (both are bounded by RSIZE_MAX_MEM at entry)"])
 
 
 def selftest(ck):
@@ -156,4 +180,13 @@ def selftest(ck):
         out[entry] = got
         if bool(got) != bool(want) or any(g.startswith("broken") for g in got):
             ck.fail_broken("fixture c16.c:%s -> %s" % (entry, got))
+    class Sink:
+        def __init__(s): s.b = []
+        def fail_broken(s, m): s.b.append(m)
+    for n, want in (("fx16_bsearch_good", False), ("fx16_bsearch_overrun", True)):
+        got, sk = [], Sink()
+        r = bsearch_bounds(sk, prog.funcs.get(n), lambda key, *a, **k: got.append(key))
+        out[n] = dict(r, reports=got)
+        if sk.b or bool(got) != want:
+            ck.fail_broken("fixture c16.c:%s: element-index rule %s (%s)" % (n, "did not fire" if want else "fired on conforming code", sk.b or got))
     return out
